@@ -49,6 +49,9 @@ type Ref struct {
 type Topology struct {
 	Nodes []Node `json:"nodes"`
 	Refs  []Ref  `json:"refs"`
+	// RShallow > 0: the remote holds commit RShallow-1 without its table (a remote that is itself a
+	// depth-limited mirror)
+	RShallow int `json:"rshallow,omitempty"`
 }
 
 var refNames = []string{"heads/main", "heads/dev", "heads/a_b", "tags/v1", "tags/v2", "custom/x", "heads/a/main"}
@@ -232,6 +235,9 @@ func Build(tp Topology, h2 ...bool) (*World, error) {
 	for i, n := range tp.Nodes {
 		if n.Owner == Both || n.Owner == Remote {
 			copyKey(w.Uni, rdb, "com/"+string(w.Sums[i]))
+			if tp.RShallow == i+1 {
+				continue
+			}
 			if err := copyTable(w.Uni, rdb, w.Tables[i]); err != nil {
 				return nil, err
 			}
